@@ -52,6 +52,8 @@ def build(rnd, k):
     n_imp = rnd.randint(0, 6)
     imported_table = rnd.random() < 0.4
     n_def = rnd.randint(2, 40 if rnd.random() < 0.3 else 14)
+    if k % 12 == 7:
+        n_def = rnd.randint(130, 170)  # function / type indices that need two LEB128 bytes
     # pre-populate some types so type indices differ from function indices
     for _ in range(rnd.randint(0, 4)):
         m.add_type([rnd.choice(TYPES) for _ in range(rnd.randint(0, 3))], [rnd.choice(TYPES)] if rnd.random() < 0.7 else [])
@@ -165,6 +167,18 @@ def build(rnd, k):
                 guarded += conv + [('i64.add',)]
             guarded += [('local.set', acc), ('end',)]
             body += guarded
+        if j not in rec_partner and ps and ps[0] == I32 and rnd.random() < 0.3:
+            # direct self recursion on the first parameter (bounded to 31 levels)
+            rec = [('local.get', 0), ('i32.const', 31), ('i32.and',), ('local.tee', 0), ('i32.const', 0), ('i32.gt_s',), ('if', None),
+                   ('local.get', acc), ('i64.const', 13), ('i64.mul',), ('local.get', 0), ('i32.const', 1), ('i32.sub',)]
+            for i, pt in enumerate(ps[1:]):
+                rec += [('local.get', i + 1)] if rnd.random() < 0.7 else arg_value(rnd, pt, fidx + i)
+            rec += [('call', fidx)]
+            if res:
+                conv, _ = fold(res)
+                rec += conv + [('i64.add',)]
+            rec += [('local.set', acc), ('end',)]
+            body += rec
         if j in rec_partner:
             other = base + rec_partner[j]
             ops_, ores = sigs[other]
